@@ -156,8 +156,11 @@ class SocketTransportSink(ClientMessageSink):
         gevent.spawn(self._ProcessReply, buf, sink_stack)
       except gevent.Timeout: # pylint: disable=E0712
         err = TimeoutError()
-        self._socket.close()
-        self._socket.open()
+        try:
+          self._socket.close()
+          self._socket.open()
+        except Exception as ex:
+          self._Fault(ex)
         self._processing = None
         sink_stack.AsyncProcessResponseMessage(MethodReturnMessage(error=err))
       except Exception as ex:
